@@ -13,7 +13,7 @@ from .. import ring, npmodel, micro
 from ..ring import P, sym, diff, is_zero, ZERO, ONE
 from ..common import new_interp, symarray, finish_info, method_where, classes_in, list_modules
 from ..interp import InterpRaise
-from .c02 import regions, CELLS_A, CELLS_B
+from .c02 import regions, CELLS_A, CELLS_B, diff_dense
 from .c03 import OpaqueHyper
 
 SPEC = dict(
@@ -220,6 +220,24 @@ def run_nearly(col, kind):
     pst, Jst = it.getattr(st, "p"), it.getattr(st, "J")
     okk = all(is_zero(P(pst[c]) - sym("bulk", True) * (P(Jst[c]) - ONE)) for c in range(len(pst)))
     col.add("C01.O2", "SolidBodyNearlyIncompressible[%s] state" % kind, "condensed state after extract: p == bulk (J - 1)", okk)
+    if kind == "Field3":
+        # history: the body exists (created and assembled at the undeformed state), then the field jumps to U by a finite amount (values loaded,
+        # a user-written solver, a line search).  The first evaluation after the jump updates the condensed (p, J) by a linearised predictor, a
+        # further evaluation at the same values settles them: from then on the body is the one a fresh body at U is
+        f0 = fc.attrs["fields"][0]
+        Uarr = f0.attrs["values"]
+        f0.attrs["values"] = micro.zeros(Uarr.shape)
+        body2 = it.call(cls, [], dict(umat=umat, field=fc, bulk=sym("bulk", True)))
+        asm2 = it.getattr(body2, "assemble")
+        it.call(it.getattr(asm2, "vector"), [fc], {})
+        f0.attrs["values"] = Uarr
+        it.call(it.getattr(asm2, "vector"), [fc], {})
+        r2 = it.call(it.getattr(asm2, "vector"), [fc], {})
+        K2 = it.call(it.getattr(asm2, "matrix"), [fc], {})
+        bad = diff_dense(r2, r) + diff_dense(K2, K)
+        col.add("C01.O2", "SolidBodyNearlyIncompressible[%s] after a finite jump of the field" % kind,
+                "an existing body evaluated (repeatedly) at new displacements settles to the state of a fresh body there: same vector, same matrix (= derivative of the vector)",
+                not bad, "%s: %s" % (method_where(cls, "_extract"), "; ".join(bad[:3])))
     finish_info(col, it)
 
 
